@@ -107,6 +107,8 @@ def extra(ctx):
 def run(ctx):
     import engine_model
     engine_model.model_part(ctx, 'C09')
+    import check_c06
+    engine_model.strict_part(ctx, n_quick=24, n_thorough=600, gates=GATES, points=check_c06.POINTS)
     prof = dict(max_steps=3, p_tag=0.0, p_error=0.2, p_enabled=0.3)
     def detail(f, it):
         if f['prop'] == 'C09' and it.get('stall'):
